@@ -250,6 +250,61 @@ def _run_witness(name: str, timeout=300):
     return None, (p.stderr or p.stdout)[-400:]
 
 
+def thorough_extra(pid, w, fids):
+    """Thorough tier, on top of the proof obligations (never counted as obligations):
+    (1) conformance: every witness family attached to a contract of this property is run on the real code (concrete
+        graphs / programs / histories through the real functions, compared with onnxruntime / eager JAX); a failing
+        family is a violation with the failing input as replay;
+    (2) mutation self-test of the verifier: each edit of contracts/MUTATIONS.json for this property is applied to a
+        scratch copy of the repository and the quick check must report a VIOLATION there (a mutation that goes
+        unnoticed means the obligations are too weak or vacuous: reported as a checker error, not as a property violation)."""
+    import re
+    import shutil
+    import tempfile
+    rep = {"conformance": [], "mutation_self_test": [], "violations": []}
+    names = []
+    for fid in fids:
+        for wn in w.contracts[fid].witnesses:
+            if wn not in names:
+                names.append(wn)
+    for wn in names:
+        holds, detail = run_witness(wn, timeout=1800)
+        rep["conformance"].append({"witness": wn, "result": "holds" if holds else ("fails" if holds is False else "not decided"), "detail": str(detail)[:300]})
+        if holds is False:
+            os.makedirs(os.path.join(REPLAYS, pid), exist_ok=True)
+            path = os.path.join(REPLAYS, pid, f"conformance__{wn}.json")
+            with open(path, "w") as f:
+                json.dump({"property": pid, "obligation": f"conformance:{wn}", "witness": {"name": wn, "detail": detail, "rerun": f".venv/bin/python witnesses/e2e.py {wn}"}, "rerun": f"./check replay {path}"}, f, indent=1, default=str)
+            rep["violations"].append({"replay_file": path, "oid": f"conformance:{wn}"})
+    if os.environ.get("PYVC_REPO"):
+        return rep      # already running on a scratch copy: no nested self-test
+    muts = [m for m in load_json(os.path.join(VERIF, "contracts", "MUTATIONS.json"), {"mutations": []})["mutations"] if pid in m["properties"]]
+    for m in muts:
+        d = tempfile.mkdtemp(prefix="verif-scratch-")
+        try:
+            subprocess.run(["rsync", "-a", "--exclude", ".git", "/repo/", d + "/"], check=True)
+            fp = os.path.join(d, m["file"])
+            src = open(fp).read()
+            if len(re.findall(m["pattern"], src)) != 1:
+                rep["mutation_self_test"].append({"name": m["name"], "result": "not applicable: the pattern no longer matches exactly once"})
+                continue
+            open(fp, "w").write(re.sub(m["pattern"], m["replacement"], src, count=1))
+            env = dict(os.environ, PYVC_REPO=d, PYVC_EVIDENCE_DIR=os.path.join(d, "_ev"), PYVC_REPLAY_DIR=os.path.join(d, "_rp"), PYTHONPATH=d + os.pathsep + VERIF, VERIF_TIER="quick")
+            p = subprocess.run([sys.executable, "-m", "pyvc.cli", pid, "--tier", "quick"], capture_output=True, text=True, env=env, cwd=VERIF, timeout=3600)
+            hit = [ln for ln in p.stdout.splitlines() if ln.startswith("VIOLATION")]
+            expect = m.get("expect", "")
+            ok = p.returncode == 1 and any(expect in ln for ln in hit)
+            rep["mutation_self_test"].append({"name": m["name"], "result": "detected" if ok else f"NOT detected (exit {p.returncode})", "reported": [re.sub(r"replay=\S*/", "replay=.../", ln)[:220] for ln in hit[:3]]})
+        except Exception as e:
+            rep["mutation_self_test"].append({"name": m["name"], "result": f"error: {type(e).__name__}: {e}"[:200]})
+        finally:
+            shutil.rmtree(d, ignore_errors=True)
+    bad = [r for r in rep["mutation_self_test"] if r["result"].startswith("NOT")]
+    if bad:
+        raise RuntimeError("mutation self-test: not detected: " + ", ".join(r["name"] for r in bad))
+    return rep
+
+
 def load_json(path, default):
     try:
         with open(path) as f:
@@ -340,6 +395,8 @@ def check_property(pid: str, spec: dict, tier: str, seed: int) -> int:
     missing = [oid for oid, st in ledger.items() if st == "discharged" and oid not in seen_oids and "#pre@" not in oid and not any(oid.startswith(u[0]) for u in undecided) and not any(oid.startswith(c[0]) for c in crashes)]
     # extra (thorough-tier conformance, bounded stand-ins)
     extra_report = None
+    if tier == "thorough" and spec.get("extra") is None:
+        spec = dict(spec, extra=lambda t, sd, ww: thorough_extra(pid, ww, fids))
     if spec.get("extra") is not None:
         try:
             extra_report = spec["extra"](tier, seed, w)
